@@ -10,7 +10,8 @@ Record obs := mkObs {
   o_reads : list (Z * option rec)     (* query by every id returned so far *)
 }.
 
-Definition case := list (step * obs).
+(** initial value of the counter (the harness may preset it near 2^32 to exercise the wrap) and the steps *)
+Definition case := (Z * list (step * obs))%type.
 
 (** bookkeeping: implementation id, model id, submitted record *)
 Definition known := list (Z * rid * rec).
@@ -48,7 +49,7 @@ Definition prop_step (o : obs) (kn : known) : bool :=
         | _ => false
         end) kn.
 
-Fixpoint check_from (s : state) (kn : known) (c : case) (i : Z) (corr prop : Z) : Z * Z :=
+Fixpoint check_from (s : state) (kn : known) (c : list (step * obs)) (i : Z) (corr prop : Z) : Z * Z :=
   match c with
   | [] => (corr, prop)
   | (st, o) :: rest =>
@@ -62,4 +63,5 @@ Fixpoint check_from (s : state) (kn : known) (c : case) (i : Z) (corr prop : Z) 
 (** (index of the first diverging step or -1, index of the first step violating C19 or -1,
     violated clause: always 0 here) *)
 Definition check_case (c : case) : Z * Z * Z :=
-  let '(corr, prop) := check_from init [] c 0 (-1) (-1) in (corr, prop, 0).
+  let '(c0, steps) := c in
+  let '(corr, prop) := check_from (mkState [] (c0 mod two32)) [] steps 0 (-1) (-1) in (corr, prop, 0).
